@@ -13,6 +13,7 @@ import (
 	"bufio"
 	"fmt"
 	"net"
+	"os"
 	"runtime"
 	"strings"
 	"sync"
@@ -113,7 +114,7 @@ func (r *c09Rig) tcpBackend(ip string, port int) error {
 	return nil
 }
 
-func newC09Rig() (*c09Rig, error) {
+func newC09Rig(bin bool) (*c09Rig, error) {
 	in := labNewInst()
 	ip := in.ip
 	r := &c09Rig{in: in, backendOf: map[string]int{}, seenAt: map[string][]string{}}
@@ -153,6 +154,14 @@ func newC09Rig() (*c09Rig, error) {
 	r.backendOf[ip(33)+":5080"] = 1
 	r.backendOf[ip(34)+":5080"] = 2
 	r.backendOf[ip(35)+":5080"] = 2
+	if bin {
+		// the -race build of the real binary; pool names stay unresolvable there
+		// (no churn in bin plans), the stable backends carry the load
+		if err := in.startBin(r.cfg, true); err != nil {
+			return nil, err
+		}
+		return r, nil
+	}
 	if err := in.start(r.cfg); err != nil {
 		return nil, err
 	}
@@ -424,8 +433,8 @@ func (r *c09Rig) run(plan c09Plan, tag string) c09Outcome {
 func TestC09(t *testing.T) {
 	V.Rule("lab under the race detector: rapid draws load plans - GOMAXPROCS in {2,4,8,16}, 2-12 UDP and 1-8 TCP stop-and-wait clients spread over three listen entries of one service (shared learned-route table; UDP and TCP listeners; UDP, TCP and dynamically resolved backends), 30-250 transactions each with unique identifiers, backends that answer every request, optional membership churn through the resolver's addressResolved entry point, sparse (a change every 70-110 ms) or fast (every 100-400 us), at least one stable backend per listen entry, optional hammering of ByteArrayPool, ClientTransportMgr and DynamicHostResolver from three goroutines. Oracle: no race report, no fatal error or panic, every client finishes (no transaction waits more than 20 s unless a membership change was in flight), every request reached exactly one backend of the listen entry it was sent to (at most one while a change was in flight), every response returned to the client that sent the request. non-trivial = plan with >= 2 listeners receiving simultaneously and >= 1 membership change during traffic; distinct by plan")
 	V.Assume("schedules are sampled by the Go scheduler under the drawn plan, not enumerated: this check can expose races, never show their absence")
-	V.Require("plan with fast churn", "plan with churn", "plan with hammering", ">=2 listeners in parallel", "tcp and udp clients together")
-	rig, err := newC09Rig()
+	V.Require("engine:bin (-race binary under load)", "plan with fast churn", "plan with churn", "plan with hammering", ">=2 listeners in parallel", "tcp and udp clients together")
+	rig, err := newC09Rig(false)
 	if err != nil {
 		V.HarnessError(t, "cannot start lab instance: %v", err)
 	}
@@ -460,4 +469,43 @@ func TestC09(t *testing.T) {
 			failf(rt, "%s\nplan: %+v", out.fail, plan)
 		}
 	})
+
+	if os.Getenv("VERIF_RACEBIN") != "" && !V.replay {
+		brig, err := newC09Rig(true)
+		if err != nil {
+			V.HarnessError(t, "cannot start the -race binary: %v", err)
+		}
+		defer brig.in.stopBin()
+		rcheck(t, "bin-plans", V.N(2, 20), func(rt *rapid.T) {
+			plan := c09Plan{
+				Procs:      16,
+				UDPClients: rapid.IntRange(4, 12).Draw(rt, "udp clients"),
+				TCPClients: rapid.IntRange(2, 8).Draw(rt, "tcp clients"),
+				PerClient:  rapid.IntRange(100, 400).Draw(rt, "transactions each"),
+			}
+			n++
+			V.Journal(t.Name()+"/bin-plans", plan)
+			out := brig.run(plan, fmt.Sprintf("b%d", n))
+			V.Class("engine:bin (-race binary under load)")
+			V.ExtraAdd("bin_transactions", int64(out.total))
+			V.Sample(map[string]any{"engine": "bin", "plan": plan})
+			if d := brig.in.binDead(); d != "" {
+				failf(rt, "%s\nplan: %+v", d, plan)
+			}
+			if out.fail != "" {
+				failf(rt, "real binary: %s\nplan: %+v", out.fail, plan)
+			}
+			if r := brig.in.binRaces(); r > 0 {
+				b, _ := os.ReadFile(brig.in.binLog)
+				txt := string(b)
+				if i := strings.Index(txt, "WARNING: DATA RACE"); i >= 0 {
+					txt = txt[i:]
+				}
+				if len(txt) > 4000 {
+					txt = txt[:4000]
+				}
+				failf(rt, "the -race build of the real binary reported %d data race(s) under load:\n%s", r, txt)
+			}
+		})
+	}
 }
